@@ -10,7 +10,7 @@ The conditional omissions of _u3_to_gpi2 (l = 0, t = -pi, p = -pi) are separate 
 Arbitrary one-/two-qubit unitaries (numerical ZYZ / KAK path) are exercised as a tolerance *test*
 (labelled as such; magic_decomposition is outside the proof, see DESIGN.md).
 """
-STATIC = ["Base/TrigMat"]
+STATIC = ["Base/TrigMat", "Spec/GateSpec"]
 import itertools
 import math
 import random
@@ -155,6 +155,66 @@ def unitary_test(run, rng, count):
                  "numerical translation of an arbitrary unitary is wrong or non-native", bcase)
 
 
+def kak_core(run, rng):
+    """cnot_decomposition / cnot_decomposition_light equal exp(-i(hx XX + hy YY + hz ZZ)) up to a global
+    phase for ALL hx, hy, hz (the synthesis formula (6)/(24) of quant-ph/0307177 as coded), on both
+    qubit orders.  exp(-i h PP) is written with the documented RXX/RYY/RZZ matrices of Spec/GateSpec.v."""
+    from qibo.transpiler.unitary_decompositions import cnot_decomposition, cnot_decomposition_light
+    header = qtrace.COQ_HEADER + "From QV Require Import Spec.GateSpec.\n"
+    two = lambda j: f"(ascale (2 # 1) (avar {j}))"
+    items = []
+    with qtrace.patched():
+        b = qtrace.fresh_sym_backend()
+        for (q0, q1) in ((0, 1), (1, 0)):
+            h = qtrace.setup_vars(3)
+            gs = cnot_decomposition(q0, q1, h[0], h[1], h[2], b)
+            spec = (f"(MMul (MLit (S_RXX {two(0)})) (MMul (MLit (S_RYY {two(1)})) (MLit (S_RZZ {two(2)}))))")
+            items.append((f"kak_core_{q0}{q1}", f"mcheck_phase {qtrace.circ_coq(gs, 2)} {spec}"))
+            h = qtrace.setup_vars(2)
+            gs = cnot_decomposition_light(q0, q1, h[0], h[1], b)
+            spec = f"(MMul (MLit (S_RXX {two(0)})) (MLit (S_RYY {two(1)})))"
+            items.append((f"kak_light_{q0}{q1}", f"mcheck_phase {qtrace.circ_coq(gs, 2)} {spec}"))
+            run.case(["kak_core", q0, q1])
+    res, out = run.coq_bools("C10_kak_triage.v", header, items, timeout=900)
+    if res is None:
+        run.find("coq:C10_kak", "KAK core obligations do not compile", {"log": out[-1200:]}, concrete=False)
+        return
+    good = [(n, t) for n, t in items if res[n]]
+    thms = [(f"ok_{n}", f"{t} = true", "vm_compute; reflexivity.") for n, t in good]
+    ok, out2 = run.coq_theorems("C10_kak_theorems.v", header, thms, timeout=900) if thms else (True, "")
+    for n, _ in good:
+        run.oblige(n, ok, "kak-core")
+    for n, t in items:
+        if res[n]:
+            continue
+        # numeric witness through the real numeric backend
+        from qibo.backends import NumpyBackend
+        import scipy.linalg as sla
+        be = NumpyBackend()
+        X = np.array([[0, 1], [1, 0]]); Y = np.array([[0, -1j], [1j, 0]]); Z = np.diag([1, -1])
+        found = None
+        for _ in range(6):
+            hx, hy, hz = (round(rng.uniform(0.1, 1.4), 3) for _ in range(3))
+            q0, q1 = int(n[-2]), int(n[-1])
+            if "light" in n:
+                hz = 0.0
+                gs = cnot_decomposition_light(q0, q1, hx, hy, be)
+            else:
+                gs = cnot_decomposition(q0, q1, hx, hy, hz, be)
+            U = qtrace.full_unitary(gs, 2)
+            V = sla.expm(-1j * (hx * np.kron(X, X) + hy * np.kron(Y, Y) + hz * np.kron(Z, Z)))
+            d = qtrace.phase_distance(U, V)
+            if d > 1e-8:
+                found = {"hx": hx, "hy": hy, "hz": hz, "qubits": [q0, q1], "distance": d}
+                break
+        if found:
+            run.refuted.append(n)
+            run.find("kak_core:" + n, "cnot_decomposition does not implement exp(-i(hx XX+hy YY+hz ZZ))", found)
+        else:
+            run.oblige(n, False, "kak-core")
+            run.find("unproved:" + n, f"obligation {n} no longer checks", concrete=False)
+
+
 RULE = ("one obligation per (gate class x native set) with symbolic parameters, all classes of gates.py x 8 native sets; "
         "plus special parameter values of _u3_to_gpi2; plus random/degenerate unitaries as a tolerance test")
 
@@ -172,6 +232,7 @@ def main(run):
     run.notes["rejected_class_set_pairs"] = len(rejected)
     run.notes["rejected_sample"] = rejected[:10]
     tables.run_items(run, items, "C10_tables", rng)
+    kak_core(run, rng)
     unitary_test(run, rng, 60 if run.tier == "quick" else 1500)
     return run.finish(rule=RULE)
 
